@@ -79,6 +79,45 @@ func c08Intern(c *Ctx, p *Prog) {
 			hashed = ranged
 		}
 	}
+	// the hashing may live in a helper of the package that ranges over its slice parameter: the hashed row is the argument
+	hashHelper := func(h *ssa.Function) int {
+		if h == nil || h.Blocks == nil || h.Pkg == nil || h.Pkg.Pkg.Path() != bprocPkg {
+			return -1
+		}
+		for _, lp := range naturalLoops(h) {
+			hasWrite := false
+			var ranged ssa.Value
+			for b := range lp.Blocks {
+				for _, in := range b.Instrs {
+					if call, ok := in.(*ssa.Call); ok {
+						if co := calleeObj(&call.Call); co != nil && co.Pkg() != nil && co.Pkg().Path() == "hash/maphash" && strings.HasPrefix(co.Name(), "Write") {
+							hasWrite = true
+						}
+					}
+					if ia, ok := in.(*ssa.IndexAddr); ok && isStringSlice(ia.X.Type()) {
+						ranged = ia.X
+					}
+				}
+			}
+			if hasWrite {
+				for i, prm := range h.Params {
+					if ranged == prm {
+						return i
+					}
+				}
+			}
+		}
+		return -1
+	}
+	if hashed == nil {
+		eachInstr(fn, func(_ *ssa.BasicBlock, in ssa.Instruction) {
+			if call, ok := in.(*ssa.Call); ok {
+				if i := hashHelper(call.Call.StaticCallee()); i >= 0 {
+					hashed = callArgs(&call.Call)[i]
+				}
+			}
+		})
+	}
 	eachInstr(fn, func(_ *ssa.BasicBlock, in ssa.Instruction) {
 		call, ok := in.(*ssa.Call)
 		if !ok {
@@ -113,6 +152,49 @@ func c08Intern(c *Ctx, p *Prog) {
 	if phi, ok := hashed.(*ssa.Phi); ok {
 		for _, e := range phi.Edges {
 			if sl, ok := e.(*ssa.Slice); ok && sl.X == phi {
+				trimmed = true
+			}
+		}
+	}
+	// or the result of a trimming helper of the package: every return is a prefix of its slice parameter, and the
+	// helper compares elements with ""
+	if call, ok := hashed.(*ssa.Call); ok {
+		if h := call.Call.StaticCallee(); h != nil && h.Blocks != nil && h.Pkg != nil && h.Pkg.Pkg.Path() == bprocPkg && len(h.Params) == 1 {
+			prefix, cmpEmpty := true, false
+			for _, b := range h.Blocks {
+				if ret, ok := b.Instrs[len(b.Instrs)-1].(*ssa.Return); ok {
+					sl, isSl := retVal(ret, 0).(*ssa.Slice)
+					if !isSl || sl.Low != nil {
+						if retVal(ret, 0) != h.Params[0] {
+							prefix = false
+						}
+						continue
+					}
+					base := sl.X
+					for d := 0; d < 4; d++ {
+						if ph, ok := base.(*ssa.Phi); ok {
+							base = ph.Edges[0]
+							continue
+						}
+						if s2, ok := base.(*ssa.Slice); ok {
+							base = s2.X
+							continue
+						}
+						break
+					}
+					if base != h.Params[0] {
+						prefix = false
+					}
+				}
+			}
+			eachInstr(h, func(_ *ssa.BasicBlock, in ssa.Instruction) {
+				if bo, ok := in.(*ssa.BinOp); ok && (bo.Op == token.EQL || bo.Op == token.NEQ) {
+					if s, ok := constString(bo.Y); ok && s == "" {
+						cmpEmpty = true
+					}
+				}
+			})
+			if prefix && cmpEmpty {
 				trimmed = true
 			}
 		}
